@@ -13,3 +13,339 @@ Proof. reflexivity. Qed.
 Lemma hash_regex_pinned :
   commit_spec_hash_regex = [[94; 91; 48; 45; 57; 97; 45; 118; 93; 123; 51; 50; 125; 36]].
 Proof. reflexivity. Qed.
+
+(* ------------------------------------------------------------------ *)
+(* 1. The byte-class table says what the documented rules say.         *)
+Definition class_of (b : N) : N :=
+  if b =? c_slash then refname_eof
+  else if b =? c_dot then refname_dot
+  else if b =? c_lcurly then refname_left_curly
+  else if forbidden_byte b then refname_illegal
+  else refname_ok.
+
+Lemma in_range_128 (b : N) : b < 128 -> In (N.to_nat b) (seq 0 128).
+Proof. intros H. apply in_seq. lia. Qed.
+
+Lemma action_table_sweep :
+  forallb (fun n => action (N.of_nat n) =? class_of (N.of_nat n)) (seq 0 128) = true.
+Proof. vm_compute. reflexivity. Qed.
+
+Lemma action_table_classes (b : N) : b < 128 -> action b = class_of b.
+Proof.
+  intros H. pose proof action_table_sweep as S.
+  rewrite forallb_forall in S. specialize (S _ (in_range_128 b H)).
+  rewrite N2Nat.id in S. apply N.eqb_eq in S. exact S.
+Qed.
+
+Lemma table_length : length refname_actions = 128%nat.
+Proof. reflexivity. Qed.
+
+(* ------------------------------------------------------------------ *)
+(* 2. comp_scan on a slash-free run followed by end or "/"             *)
+Definition bad_pair (a b : N) : bool :=
+  ((a =? c_dot) && (b =? c_dot)) || ((a =? c_at) && (b =? c_lcurly)).
+
+Fixpoint pairs_ok (lst : N) (c : bytes) : bool :=
+  match c with
+  | [] => true
+  | x :: c' => negb (bad_pair lst x) && pairs_ok x c'
+  end.
+
+Definition after_tail (tail : bytes) : bytes := match tail with [] => [] | _ :: r => r end.
+Definition tail_ok (tail : bytes) : Prop := tail = [] \/ exists r, tail = c_slash :: r.
+
+Lemma forbidden_slash : forbidden_byte c_slash = false. Proof. reflexivity. Qed.
+
+Lemma comp_scan_run c : forall lst seen tail,
+  ~ In c_slash c -> tail_ok tail ->
+  comp_scan (c ++ tail) lst seen =
+    if forallb comp_byte_ok c && pairs_ok lst c && negb (lock_suffix_rev (rev c ++ seen))
+    then Some (after_tail tail) else None.
+Proof.
+  induction c as [|x c IH]; intros lst seen tail Hns Ht.
+  - cbn [app forallb pairs_ok rev andb]. destruct Ht as [-> | [r ->]].
+    + cbn [comp_scan after_tail]. destruct (lock_suffix_rev seen); reflexivity.
+    + cbn [comp_scan after_tail].
+      replace (128 <=? c_slash) with false by reflexivity.
+      replace (action c_slash =? refname_ok) with false by reflexivity.
+      replace (action c_slash =? refname_eof) with true by reflexivity.
+      destruct (lock_suffix_rev seen); reflexivity.
+  - assert (Hx : x <> c_slash) by (intro E; apply Hns; left; exact E).
+    assert (Hc : ~ In c_slash c) by (intro E; apply Hns; right; exact E).
+    cbn [app comp_scan forallb pairs_ok rev].
+    rewrite <- app_assoc. cbn [app].
+    destruct (128 <=? x) eqn:E128.
+    + unfold comp_byte_ok. apply N.leb_le in E128.
+      replace (x <? 128) with false by (symmetry; apply N.ltb_ge; exact E128).
+      reflexivity.
+    + apply N.leb_gt in E128. rewrite (action_table_classes x E128).
+      unfold class_of, comp_byte_ok.
+      replace (x <? 128) with true by (symmetry; apply N.ltb_lt; exact E128).
+      replace (x =? c_slash) with false by (symmetry; apply N.eqb_neq; exact Hx).
+      cbn [andb negb].
+      destruct (x =? c_dot) eqn:Ed.
+      { apply N.eqb_eq in Ed. subst x.
+        replace (refname_dot =? refname_ok) with false by reflexivity.
+        replace (refname_dot =? refname_eof) with false by reflexivity.
+        replace (refname_dot =? refname_dot) with true by reflexivity.
+        replace (forbidden_byte c_dot) with false by reflexivity.
+        unfold bad_pair. replace (c_dot =? c_dot) with true by reflexivity.
+        replace (c_dot =? c_lcurly) with false by reflexivity.
+        rewrite andb_true_r, andb_false_r, orb_false_r. cbn [negb andb].
+        destruct (lst =? c_dot); cbn [negb andb]; [rewrite ?andb_false_r; reflexivity|].
+        rewrite (IH c_dot (c_dot :: seen) tail Hc Ht). reflexivity. }
+      destruct (x =? c_lcurly) eqn:El.
+      { apply N.eqb_eq in El. subst x.
+        replace (refname_left_curly =? refname_ok) with false by reflexivity.
+        replace (refname_left_curly =? refname_eof) with false by reflexivity.
+        replace (refname_left_curly =? refname_dot) with false by reflexivity.
+        replace (refname_left_curly =? refname_left_curly) with true by reflexivity.
+        replace (forbidden_byte c_lcurly) with false by reflexivity.
+        unfold bad_pair. replace (c_lcurly =? c_dot) with false by reflexivity.
+        replace (c_lcurly =? c_lcurly) with true by reflexivity.
+        rewrite andb_false_r, andb_true_r, orb_false_l. cbn [negb andb].
+        destruct (lst =? c_at); cbn [negb andb]; [rewrite ?andb_false_r; reflexivity|].
+        rewrite (IH c_lcurly (c_lcurly :: seen) tail Hc Ht). reflexivity. }
+      destruct (forbidden_byte x) eqn:Ef.
+      { replace (refname_illegal =? refname_ok) with false by reflexivity.
+        replace (refname_illegal =? refname_eof) with false by reflexivity.
+        replace (refname_illegal =? refname_dot) with false by reflexivity.
+        replace (refname_illegal =? refname_left_curly) with false by reflexivity.
+        reflexivity. }
+      { replace (refname_ok =? refname_ok) with true by reflexivity.
+        unfold bad_pair. rewrite Ed, El, !andb_false_r. cbn [orb negb andb].
+        rewrite (IH x (x :: seen) tail Hc Ht). reflexivity. }
+Qed.
+
+(* ------------------------------------------------------------------ *)
+(* 3. pairs_ok and the lock-suffix test in declarative terms            *)
+Lemma has_infix_cons p y s : has_infix p (y :: s) = is_prefix p (y :: s) || has_infix p s.
+Proof. reflexivity. Qed.
+
+Lemma pairs_ok_infix c : forall lst,
+  pairs_ok lst c = negb (has_infix [c_dot; c_dot] (lst :: c)) && negb (has_infix [c_at; c_lcurly] (lst :: c)).
+Proof.
+  induction c as [|x c IH]; intros lst.
+  - cbn [pairs_ok has_infix is_prefix]. rewrite !andb_false_r. reflexivity.
+  - cbn [pairs_ok]. rewrite IH.
+    rewrite (has_infix_cons [c_dot; c_dot] lst), (has_infix_cons [c_at; c_lcurly] lst).
+    cbn [is_prefix]. unfold bad_pair. rewrite !andb_true_r.
+    rewrite (N.eqb_sym c_dot lst), (N.eqb_sym c_dot x), (N.eqb_sym c_at lst), (N.eqb_sym c_lcurly x).
+    destruct (lst =? c_dot), (x =? c_dot), (lst =? c_at), (x =? c_lcurly),
+      (has_infix [c_dot; c_dot] (x :: c)), (has_infix [c_at; c_lcurly] (x :: c)); reflexivity.
+Qed.
+
+Lemma pairs_ok_0 c :
+  pairs_ok 0 c = negb (has_infix [c_dot; c_dot] c) && negb (has_infix [c_at; c_lcurly] c).
+Proof.
+  rewrite pairs_ok_infix, !has_infix_cons. cbn [is_prefix].
+  change (c_dot =? 0) with false. change (c_at =? 0) with false. reflexivity.
+Qed.
+
+Lemma lock_suffix_rev_nil c : lock_suffix_rev (rev c ++ []) = is_suffix s_lock c.
+Proof. unfold lock_suffix_rev, is_suffix. rewrite app_nil_r. reflexivity. Qed.
+
+(* ------------------------------------------------------------------ *)
+(* 4. cutting a string at its first "/"                                 *)
+Lemma comp_decompose s : exists c tail, s = c ++ tail /\ ~ In c_slash c /\ tail_ok tail.
+Proof.
+  induction s as [|x s IH].
+  - exists [], []. split; [reflexivity|]. split; [intros []|left; reflexivity].
+  - destruct (x =? c_slash) eqn:E.
+    + apply N.eqb_eq in E. subst x. exists [], (c_slash :: s).
+      split; [reflexivity|]. split; [intros []|right; exists s; reflexivity].
+    + apply N.eqb_neq in E. destruct IH as (c & tail & Hs & Hc & Ht).
+      exists (x :: c), tail. split; [rewrite Hs; reflexivity|]. split; [|exact Ht].
+      intros [H|H]; [apply E; exact H | exact (Hc H)].
+Qed.
+
+Lemma split_on_comp c : forall tail, ~ In c_slash c -> tail_ok tail ->
+  split_on c_slash (c ++ tail) =
+    match tail with [] => [c] | _ :: r => c :: split_on c_slash r end.
+Proof.
+  induction c as [|x c IH]; intros tail Hc Ht.
+  - destruct Ht as [-> | [r ->]]; [reflexivity|].
+    cbn [app split_on]. rewrite N.eqb_refl. reflexivity.
+  - cbn [app split_on].
+    replace (x =? c_slash) with false
+      by (symmetry; apply N.eqb_neq; intro E; apply Hc; left; exact E).
+    rewrite IH; [|intro E; apply Hc; right; exact E | exact Ht].
+    destruct tail; reflexivity.
+Qed.
+
+Lemma validate_component_spec c tail :
+  c ++ tail <> [] -> ~ In c_slash c -> tail_ok tail ->
+  validate_component (c ++ tail) = if good_or_empty c then Some (after_tail tail) else None.
+Proof.
+  intros Hne Hc Ht. destruct c as [|x c].
+  - destruct Ht as [-> | [r ->]]; [contradiction Hne; reflexivity | reflexivity].
+  - cbn [app validate_component]. unfold good_or_empty, good_component.
+    change (beq_bytes (x :: c) []) with false. cbn [head_byte hd orb negb andb].
+    destruct (x =? c_dot) eqn:Ed; [reflexivity|].
+    change (x :: c ++ tail) with ((x :: c) ++ tail).
+    rewrite (comp_scan_run (x :: c) 0 [] tail Hc Ht), pairs_ok_0, lock_suffix_rev_nil.
+    cbn [negb andb].
+    destruct (forallb comp_byte_ok (x :: c)), (has_infix [c_dot; c_dot] (x :: c)),
+      (has_infix [c_at; c_lcurly] (x :: c)), (is_suffix s_lock (x :: c)); reflexivity.
+Qed.
+
+(* ------------------------------------------------------------------ *)
+(* 5. the component loop                                                *)
+Lemma validate_loop_nil f : validate_loop f [] = true.
+Proof. destruct f; reflexivity. Qed.
+
+Lemma validate_loop_S f s : s <> [] ->
+  validate_loop (S f) s =
+    match validate_component s with None => false | Some rest => validate_loop f rest end.
+Proof. destruct s; [intros H; contradiction H; reflexivity | reflexivity]. Qed.
+
+Lemma validate_loop_spec : forall fuel s, (length s <= fuel)%nat ->
+  validate_loop fuel s = forallb good_or_empty (split_on c_slash s).
+Proof.
+  induction fuel as [|f IH]; intros s Hlen.
+  - destruct s; [reflexivity | cbn [length] in Hlen; lia].
+  - destruct s as [|x s0]; [reflexivity|].
+    destruct (comp_decompose (x :: s0)) as (c & tail & Hs & Hc & Ht).
+    assert (Hne : c ++ tail <> []) by (rewrite <- Hs; discriminate).
+    rewrite Hs in *.
+    rewrite (validate_loop_S f _ Hne), (validate_component_spec c tail Hne Hc Ht),
+      (split_on_comp c tail Hc Ht).
+    destruct Ht as [-> | [r ->]]; cbn [forallb after_tail].
+    + destruct (good_or_empty c); [rewrite validate_loop_nil|]; reflexivity.
+    + destruct (good_or_empty c); [|reflexivity]. cbn [andb]. apply IH.
+      rewrite app_length in Hlen. cbn [length] in Hlen. lia.
+Qed.
+
+(* ------------------------------------------------------------------ *)
+(* 6. dataset ids                                                       *)
+Lemma valid_dataset_id_ne s : s <> [] ->
+  valid_dataset_id s =
+    if beq_bytes s s_at then false
+    else if (last_byte s =? c_slash) || (last_byte s =? c_dot) then false
+    else validate_loop (length s) s.
+Proof. destruct s; [intros H; contradiction H; reflexivity | reflexivity]. Qed.
+
+Theorem valid_dataset_id_spec : forall s, valid_dataset_id s = dataset_rules_b s.
+Proof.
+  intros s. unfold dataset_rules_b.
+  destruct (beq_bytes s []) eqn:E0.
+  { apply beq_bytes_spec in E0. subst s. reflexivity. }
+  assert (Hne : s <> []) by (intro H; subst s; discriminate E0).
+  rewrite (valid_dataset_id_ne s Hne), (validate_loop_spec (length s) s (le_n _)).
+  destruct (beq_bytes s s_at), (last_byte s =? c_slash), (last_byte s =? c_dot),
+    (forallb good_or_empty (split_on c_slash s)); reflexivity.
+Qed.
+
+(* ------------------------------------------------------------------ *)
+(* 7. empty components  <->  "", "//", leading "/", trailing "/"        *)
+Definition has_empty (comps : list bytes) : bool := existsb (fun c => beq_bytes c []) comps.
+
+Lemma has_empty_hd_tl l : l <> [] -> has_empty l = beq_bytes (hd [] l) [] || has_empty (tl l).
+Proof. destruct l; [intros H; contradiction H; reflexivity | reflexivity]. Qed.
+
+Lemma last_byte_cons2 x y s : last_byte (x :: y :: s) = last_byte (y :: s).
+Proof. reflexivity. Qed.
+
+Lemma split_hd_empty s :
+  beq_bytes (hd [] (split_on c_slash s)) [] = beq_bytes s [] || (head_byte s =? c_slash).
+Proof.
+  destruct s as [|x s]; [reflexivity|]. cbn [split_on head_byte hd].
+  change (beq_bytes (x :: s) []) with false. cbn [orb].
+  destruct (x =? c_slash); [reflexivity|].
+  destruct (split_on c_slash s); reflexivity.
+Qed.
+
+Lemma split_tl_empty s :
+  has_empty (tl (split_on c_slash s)) =
+    has_infix [c_slash; c_slash] s || (negb (beq_bytes s []) && (last_byte s =? c_slash)).
+Proof.
+  induction s as [|x s IH]; [reflexivity|].
+  rewrite has_infix_cons. change (beq_bytes (x :: s) []) with false.
+  cbn [negb andb is_prefix split_on]. rewrite (N.eqb_sym c_slash x).
+  destruct (x =? c_slash) eqn:E.
+  - cbn [tl andb]. apply N.eqb_eq in E. subst x.
+    rewrite (has_empty_hd_tl _ (split_on_nonempty c_slash s)), split_hd_empty, IH.
+    destruct s as [|y s]; [reflexivity|].
+    rewrite last_byte_cons2. change (beq_bytes (y :: s) []) with false.
+    cbn [is_prefix head_byte hd negb andb orb].
+    rewrite (N.eqb_sym c_slash y), andb_true_r.
+    destruct (y =? c_slash), (has_infix [c_slash; c_slash] (y :: s)),
+      (last_byte (y :: s) =? c_slash); reflexivity.
+  - cbn [andb orb]. destruct s as [|y s].
+    + change (last_byte [x]) with x. rewrite E. reflexivity.
+    + rewrite last_byte_cons2. change (beq_bytes (y :: s) []) with false in IH.
+      cbn [negb andb] in IH. rewrite <- IH.
+      destruct (split_on c_slash (y :: s)) eqn:Es;
+        [exfalso; exact (split_on_nonempty _ _ Es) | reflexivity].
+Qed.
+
+Lemma has_empty_split s :
+  has_empty (split_on c_slash s) =
+    beq_bytes s [] || has_infix [c_slash; c_slash] s
+    || (head_byte s =? c_slash) || (last_byte s =? c_slash).
+Proof.
+  rewrite (has_empty_hd_tl _ (split_on_nonempty c_slash s)), split_hd_empty, split_tl_empty.
+  destruct (beq_bytes s []), (has_infix [c_slash; c_slash] s),
+    (head_byte s =? c_slash), (last_byte s =? c_slash); reflexivity.
+Qed.
+
+Lemma good_component_nil : good_component [] = false.
+Proof. reflexivity. Qed.
+
+Lemma forallb_good_component comps :
+  forallb good_component comps = forallb good_or_empty comps && negb (has_empty comps).
+Proof.
+  induction comps as [|c comps IH]; [reflexivity|].
+  unfold has_empty. cbn [forallb existsb]. fold (has_empty comps). rewrite IH.
+  destruct c as [|x c].
+  - change (good_component []) with false. change (good_or_empty []) with true.
+    change (beq_bytes [] []) with true. cbn [orb negb andb].
+    rewrite andb_false_r. reflexivity.
+  - change (good_or_empty (x :: c)) with (good_component (x :: c)).
+    change (beq_bytes (x :: c) []) with false. cbn [orb].
+    destruct (good_component (x :: c)), (forallb good_or_empty comps), (has_empty comps);
+      reflexivity.
+Qed.
+
+(* ------------------------------------------------------------------ *)
+(* 8. branch names                                                      *)
+Theorem valid_branch_name_spec : forall s, valid_branch_name s = ref_rules_b s.
+Proof.
+  intros s. unfold valid_branch_name, ref_rules_b, branch_regex_matches.
+  rewrite valid_dataset_id_spec, forallb_good_component, has_empty_split.
+  unfold dataset_rules_b.
+  destruct (beq_bytes s []) eqn:E0.
+  { apply beq_bytes_spec in E0. subst s. reflexivity. }
+  destruct (forallb good_or_empty (split_on c_slash s)), (beq_bytes s s_HEAD),
+    (beq_bytes s s_dash), (looks_like_hash s), (has_infix [c_slash; c_slash] s),
+    (head_byte s =? c_slash), (last_byte s =? c_slash), (beq_bytes s s_at),
+    (last_byte s =? c_dot); reflexivity.
+Qed.
+
+Lemma beq_bytes_false_iff a b : beq_bytes a b = false <-> a <> b.
+Proof. rewrite <- not_true_iff_false, beq_bytes_spec. reflexivity. Qed.
+
+Theorem valid_branch_name_iff_rules : forall s, valid_branch_name s = true <-> ref_rules s.
+Proof.
+  intros s. rewrite valid_branch_name_spec. unfold ref_rules_b, ref_rules.
+  rewrite !andb_true_iff, !negb_true_iff, forallb_forall, Forall_forall,
+    !beq_bytes_false_iff, N.eqb_neq.
+  tauto.
+Qed.
+
+(* ------------------------------------------------------------------ *)
+(* 9. tag names                                                         *)
+Theorem valid_tag_name_spec : forall s, valid_tag_name s = tag_rules_b s.
+Proof.
+  intros s. unfold valid_tag_name, tag_rules_b, tag_regex_matches.
+  change (existsb (fun c => beq_bytes c []) (split_on c_slash s))
+    with (has_empty (split_on c_slash s)).
+  rewrite has_empty_split.
+  destruct (beq_bytes s []) eqn:E0.
+  { apply beq_bytes_spec in E0. subst s. reflexivity. }
+  destruct (existsb tag_forbidden_byte s), (is_suffix s_lock s),
+    (has_infix (s_lock ++ [c_slash]) s), (beq_bytes s s_HEAD), (beq_bytes s s_dash),
+    (looks_like_hash s), (has_infix [c_dot; c_dot] s), (has_infix [c_at; c_lcurly] s),
+    (has_infix [c_slash; c_slash] s), (head_byte s =? c_slash), (last_byte s =? c_slash);
+    reflexivity.
+Qed.
